@@ -1025,8 +1025,10 @@ class World:
             bases.append(self.classes[b2])
         if cs.get("builtin") == "list" and not bases:
             bases.append(list)  # a contract class deriving from a built-in with its own (slot-wrapper) __init__
+        if bases and not cs.get("dbc", True):
+            raise HarnessError("plain (non-DBC) classes are generated as roots only")
         meta_only = bool(cs.get("meta_only")) and not [b for b in bases if b is not list]  # ``class K(metaclass=icontract.DBCMeta)`` without the DBC base
-        if cs.get("dbc", True) and not meta_only and not any(isinstance(b, icontract.DBCMeta) for b in bases):
+        if (cs.get("dbc", True) or bases) and not meta_only and not any(isinstance(b, icontract.DBCMeta) for b in bases):
             bases.append(icontract.DBC)
         pyname = cs.get("pyname", cname)  # several generated classes may deliberately share one Python name
         ns = {"__qualname__": pyname, "__module__": "verif_world"}
